@@ -2,7 +2,12 @@
 
 package storeh
 
-import "verifharness/emit"
+import (
+	"fmt"
+	"testing"
+
+	"verifharness/emit"
+)
 
 type Weights struct {
 	Append, Delete, Restart int
@@ -122,16 +127,34 @@ func Scripted(ops []Op) Gen {
 	}
 }
 
-func A(hs ...uint64) Op     { return Op{Kind: Append, Heights: hs} }
-func D(from, to uint64) Op  { return Op{Kind: Delete, From: from, To: to} }
-func R() Op                 { return Op{Kind: Restart} }
-func O() Op                 { return Op{Kind: Reopen} }
+func A(hs ...uint64) Op    { return Op{Kind: Append, Heights: hs} }
+func D(from, to uint64) Op { return Op{Kind: Delete, From: from, To: to} }
+func R() Op                { return Op{Kind: Restart} }
+
+// DW is a DeleteRange during which the write attempts with the given indices (counted from the start of the call) fail.
+func DW(from, to uint64, wfails ...int) Op {
+	return Op{Kind: Delete, From: from, To: to, WFails: wfails}
+}
+
+// Retry is the retry of the tail-side / whole-store deletion before it: Run replaces From by the current Tail when that lies inside the range.
+func Retry(from, to uint64) Op { return Op{Kind: Delete, From: from, To: to, Retry: true} }
+func O() Op                    { return Op{Kind: Reopen} }
 
 // CorpusCase is a minimised past failure (or a hand-written edge case); the corpus runs first, forever.
 type CorpusCase struct {
 	Name  string
 	Batch int
 	Ops   []Op
+}
+
+// Faulty: the history has a DeleteRange with failing datastore writes (rendered as an [fcase]: Result.FaultTerm).
+func (c CorpusCase) Faulty() bool {
+	for _, o := range c.Ops {
+		if len(o.WFails) > 0 {
+			return true
+		}
+	}
+	return false
 }
 
 // Corpus: witnesses of the defects repaired by fix: commits (known_findings.json, status fixed).
@@ -148,4 +171,103 @@ var Corpus = []CorpusCase{
 	{"F11-head-delete-crash", 4, []Op{A(1, 2, 3, 4, 5, 6, 7, 8, 9, 10), D(5, 11)}},
 	{"F15-stop-right-after-append", 64, []Op{A(1), A(2, 3, 4, 5, 6, 7, 8, 9, 10), O(), A(11)}},
 	{"F18-delete-persists-pointers-over-unflushed-headers", 3, []Op{A(1, 2, 3), A(6, 7, 8), A(4), A(5), D(1, 2)}},
+	// F29: the header and its height index were deleted by two separate writes; the second one failing left a header
+	// that is gone by hash and still indexed: the tail (head) stayed at a deleted header
+	{"F29-tail-delete-second-write-fails", 4, []Op{A(1, 2, 3, 4, 5, 6, 7, 8, 9, 10), DW(1, 6, 3), Retry(1, 6), A(11), O()}},
+	{"F29-head-delete-second-write-fails", 4, []Op{A(1, 2, 3, 4, 5, 6, 7, 8, 9, 10), DW(6, 11, 2), A(6, 7), O()}},
+	// F33 (open): a failing write of a pointer key inside DeleteRange, then a clean restart (nothing pending): the stale persisted pointer wins
+	{"F33-tail-key-write-fails-then-restart", 4, []Op{A(1, 2, 3, 4, 5, 6, 7, 8, 9, 10), DW(1, 6, 5)}},
+	{"F33-head-key-restore-fails-then-restart", 1, []Op{A(5, 6), {Kind: Delete, From: 6, To: 7, WFails: []int{1}, Fails: []Fail{{Handler: 0, Height: 6}}}}},
+}
+
+// FaultCases runs the "failing writes inside DeleteRange" dimension and hands every history to add:
+// the faulty corpus; every single-failure placement for stores of 10 headers (given batch sizes: 4 = everything
+// flushed, 64 = everything pending, so that Sync's commit is the first attempt), tail side / head side / whole
+// store, both datastore flavours, followed by the retry, a continuation append and a reopen; and nrand random
+// histories ending in a deletion with 1..3 random failing attempts (sometimes together with a failing handler),
+// its retry and a random continuation.
+func FaultCases(t *testing.T, rng *emit.Rand, batches, nhs []int, nrand int, add func(res Result, class string)) {
+	// nh = 0: no OnDelete handler reads the header right before it is deleted, so the header cache does not
+	// hold (and mask the absence of) a header whose datastore entry is gone
+	base := func(batch, nh int, ctxds bool) Config {
+		return Config{Batch: batch, Cache: []int{4, 512}[rng.Intn(2)], ICache: []int{4, 2048}[rng.Intn(2)], U: 16, NH: nh, ProbeEvery: true, Ranges: 1, CtxDS: ctxds}
+	}
+	for _, cc := range Corpus {
+		if !cc.Faulty() {
+			continue
+		}
+		for _, nh := range []int{0, 1} {
+			if nh == 0 && len(cc.Ops[len(cc.Ops)-1].Fails) > 0 {
+				continue // the witness scripts a handler failure
+			}
+			res := Run(t, rng, base(cc.Batch, nh, false), len(cc.Ops), Scripted(cc.Ops))
+			add(res, fmt.Sprintf("corpus/%s/%d", cc.Name, nh))
+		}
+	}
+	all := []uint64{1, 2, 3, 4, 5, 6, 7, 8, 9, 10}
+	for _, ctxds := range []bool{false, true} {
+		for _, batch := range batches {
+			for _, nh := range nhs {
+				for _, rg := range [][2]uint64{{1, 6}, {6, 11}, {1, 11}} {
+					for i := 0; i < 40; i++ {
+						ops := []Op{A(all...), DW(rg[0], rg[1], i)}
+						if rg[0] == 1 {
+							ops = append(ops, Retry(rg[0], rg[1]))
+						}
+						ops = append(ops, A(11, 12), O())
+						res := Run(t, rng, base(batch, nh, ctxds), len(ops), Scripted(ops))
+						if res.WFailed == 0 {
+							break // the call made fewer than i+1 write attempts
+						}
+						add(res, fmt.Sprintf("single/%v/%d/%d/%d-%d/%d", ctxds, batch, nh, rg[0], rg[1], i))
+					}
+				}
+			}
+		}
+	}
+	for k := 0; k < nrand; k++ {
+		cfg := Config{Batch: []int{1, 2, 3, 5, 64}[rng.Intn(5)], Cache: []int{4, 8, 512}[rng.Intn(3)], ICache: []int{4, 2048}[rng.Intn(2)],
+			U: 16, NH: rng.Intn(3), ProbeEvery: true, Ranges: 1, CtxDS: rng.Bool()}
+		pre := 1 + rng.Intn(6)
+		prefix := RandomGen(rng, cfg, Weights{Append: 70, Delete: 18, Restart: 12, InvalidDelete: 10})
+		rest := RandomGen(rng, cfg, Weights{Append: 60, Delete: 20, Restart: 20, InvalidDelete: 10})
+		var from, to uint64
+		tailSide := false
+		gen := func(step int, tail, head uint64) (Op, bool) {
+			switch {
+			case step < pre || head == 0 && step <= pre+2:
+				if head == 0 {
+					return A(1, 2, 3, 4, 5, 6), true
+				}
+				return prefix(step, tail, head)
+			case to == 0:
+				switch rng.Intn(8) {
+				case 0, 1, 2:
+					from, to = tail, tail+1+uint64(rng.Intn(int(head-tail)+1))
+				case 3, 4:
+					from, to = head-uint64(rng.Intn(int(head-tail)+1)), head+1
+				case 5, 6:
+					from, to = tail, head+1
+				default:
+					from, to = uint64(rng.Intn(int(head)+2)), 1+uint64(rng.Intn(int(head)+2))
+				}
+				tailSide = from == tail && to > from
+				op := DW(from, to, rng.Intn(6))
+				for rng.Chance(35) && len(op.WFails) < 3 {
+					op.WFails = append(op.WFails, rng.Intn(10))
+				}
+				if cfg.NH > 0 && to > from && rng.Chance(25) {
+					op.Fails = []Fail{{Handler: rng.Intn(cfg.NH), Height: from + uint64(rng.Intn(int(to-from))), Panic: rng.Chance(30)}}
+				}
+				return op, true
+			case tailSide:
+				tailSide = false
+				return Retry(from, to), true
+			default:
+				return rest(step, tail, head)
+			}
+		}
+		res := Run(t, rng, cfg, pre+3+rng.Intn(4), gen)
+		add(res, "rand/")
+	}
 }
